@@ -87,6 +87,10 @@ impl Signature {
     }
 
     pub fn get_public_key_from_digest(&self, digest: &[u8]) -> Result<PublicKey, BSVErrors> {
+        if digest.len() != 32 {
+            return Err(BSVErrors::CustomECDSAError("digest must be exactly 32 bytes long".into()));
+        }
+
         let recovery = match &self.recovery {
             Some(v) => v,
             None => {
